@@ -355,7 +355,8 @@ def create (s : State) (r : Req) : State × Resp :=
       let rec1 := appendUsage rec0 r.usages
       -- a one-time event opens no session: its (closed) record is kept, the session map is not touched, and the
       -- empty reference of its Location designates nothing
-      let ue' : Ue := { ue with notifyUri := r.uri,
+      -- the address given with the create is registered; a create that gives none leaves the one registered before in place
+      let ue' : Ue := { ue with notifyUri := ue.notifyUri || r.uri,
                                 cdr := if r.one then ue.cdr else setSid ue.cdr sid ue.records.length,
                                 records := ue.records ++ [rec1] }
       ({ s with ues := putUe s.ues ue', localSeq := s.localSeq + 1, sessionSeq := sseq },
